@@ -165,14 +165,35 @@ theorem addEach_eq (xs es : List Val) : addEach xs es = addAll xs es := by
 
 theorem addToSet_each (xs es : List Val) :
     addToSetValue (.arr xs) (.doc [("$each", .arr es)]) = .ok (.arr (addAll xs es)) := by
-  simp [addToSetValue, dget, addEach_eq]
+  simp [addToSetValue, eachWithOtherClause, dget, addEach_eq]
 
 theorem addToSet_plain (xs : List Val) (v : Val) (hv : ∀ fs, v = .doc fs → dget "$each" fs = none) :
     addToSetValue (.arr xs) v = .ok (.arr (addOne xs v)) := by
   unfold addOne
   cases v with
-  | doc fs => simp [addToSetValue, hv fs rfl]
-  | _ => simp [addToSetValue]
+  | doc fs => simp [addToSetValue, eachWithOtherClause, hv fs rfl]
+  | _ => simp [addToSetValue, eachWithOtherClause]
+
+/-- `$addToSet` takes no clause next to `$each`: whatever the target holds -/
+theorem addToSet_each_clause (cur : Val) (vs : Fields) (he : (dget "$each" vs).isSome = true)
+    (k : String) (hk : k ∈ dkeys vs) (hne : k ≠ "$each") :
+    addToSetValue cur (.doc vs) = .error .writeErr := by
+  have hany : vs.any (fun kv => kv.1 != "$each") = true := by
+    simp only [dkeys, List.mem_map] at hk
+    obtain ⟨kv, hm, rfl⟩ := hk
+    exact List.any_eq_true.2 ⟨kv, hm, by simpa using hne⟩
+  simp [addToSetValue, eachWithOtherClause, he, hany]
+
+/-- … and that is the only way `$each` is refused: with `$each` alone the clause test passes -/
+theorem eachWithOtherClause_iff (vs : Fields) :
+    eachWithOtherClause (.doc vs) = true ↔
+      (dget "$each" vs).isSome = true ∧ ∃ k ∈ dkeys vs, k ≠ "$each" := by
+  simp only [eachWithOtherClause, Bool.and_eq_true, List.any_eq_true, dkeys, List.mem_map]
+  constructor
+  · rintro ⟨h1, kv, hm, hne⟩
+    exact ⟨h1, kv.1, ⟨kv, hm, rfl⟩, by simpa using hne⟩
+  · rintro ⟨h1, k, ⟨kv, hm, rfl⟩, hne⟩
+    exact ⟨h1, kv, hm, by simpa using hne⟩
 
 /-- what `$each` adds: only listed values that were not there, none of them twice -/
 theorem addAll_once (xs : List Val) : ∀ (es : List Val) (acc : List Val),
